@@ -64,7 +64,17 @@ def gen(rng):
                     requires=[{'id': f'p{i}', 'version': '1'} for i in (3, 0, 2)])
     dy = gd.lexicon('dy', '1', '1.1', n_syn=2, n_ent=1, ili_pool=['i1', 'i2', 'i3'], lang='de',
                     requires=[{'id': f'p{i}', 'version': '1'} for i in (4, 2, 1)] + [{'id': 'absent', 'version': '0'}])
-    return {'resources': [docs.resource([W['a:1'], W['e:1'], W['b:1'], m], '1.0'), docs.resource(provs + [dx, dy], '1.1')],
+    # a lexicon without relations whose taxonomy is borrowed from an expand lexicon; several of the borrowed
+    # hypernyms have no counterpart in it, so that more than one placeholder synset is a common hypernym
+    def syn(lex, k, ili, hyps=()):
+        return {'id': f'{lex}-{k}', 'ili': ili, 'partOfSpeech': 'n', 'meta': None,
+                'relations': [{'target': f'{lex}-{h}', 'relType': 'hypernym', 'meta': None} for h in hyps]}
+    tops = ['t%d' % i for i in range(rng.randint(2, 4))]
+    xe = {'id': 'xe', 'version': '1', 'label': 'expand', 'language': 'en', 'email': 'a@b.c', 'license': 'L', 'meta': None,
+          'synsets': [syn('xe', 'p', 'j1', tops), syn('xe', 'q', 'j2', tops)] + [syn('xe', t_, 'j-' + t_, ['root']) for t_ in tops] + [syn('xe', 'root', 'j-root')]}
+    xl = {'id': 'xl', 'version': '1', 'label': 'local', 'language': 'de', 'email': 'a@b.c', 'license': 'L', 'meta': None,
+          'synsets': [syn('xl', 'p', 'j1'), syn('xl', 'q', 'j2')] + ([syn('xl', 'root', 'j-root')] if rng.random() < 0.5 else [])}
+    return {'resources': [docs.resource([W['a:1'], W['e:1'], W['b:1'], m], '1.0'), docs.resource(provs + [dx, dy, xe, xl], '1.1')],
             'graph': g, 'corpus': ['w0', 'w1', 'amb', 'amb', 'w2', 'zzz'], 'broken': broken, 'dumpres': dumpres, 'queries': queries,
             'selections': [{}, {'lexicon': 'a:1'}, {'lexicon': 'b:1', 'expand': 'e:1'}, {'lexicon': 'b:1', 'expand': ''}, {'lang': 'en'}, {'lang': 'de'}]}
 
